@@ -192,8 +192,8 @@ def run(tier="quick", seed=0):
         methods = []
         for cls, ctxnames in ((MachineController, MC_CTX), (BMPController, BMP_CTX)):
             for name, f in sorted(vars(cls).items()):
-                if not (callable(f) and hasattr(f, "__wrapped__") and "kw_only_args_defaults" in inspect.getclosurevars(f).nonlocals):
-                    continue
+                if not (inspect.isfunction(f) and hasattr(f, "__wrapped__") and "kw_only_args_defaults" in inspect.getclosurevars(f).nonlocals):
+                    continue            # (plain methods, static / class methods, properties: not wrapped for contextual arguments)
                 names, table, kwonly, star = declared(f)
                 if star and (cls.__name__, name) not in star_args:
                     skipped.append("%s.%s (takes *args, no generic arguments known)" % (cls.__name__, name))
@@ -838,26 +838,31 @@ def run(tier="quick", seed=0):
 
         # ---- layer I: `board` given as an iterable of boards (set_led: "sent to the first board in the iterable") ---------
         mcm.SCPConnection, bmm.SCPConnection = Rec, Rec
-        for boards in ([3, 1], (5, 4, 3), [2], [0, 1, 2], [7, 2, 23], (1, 0)):
+        iform = 0
+        for boards_ in ([3, 1], (5, 4, 3), [2], [0, 1, 2], [7, 2, 23], (1, 0)):
             for way in ("kw", "pos", "ctx"):
                 for led in (7, [0, 7]):
                     ev += 1
                     layers["I"] = layers.get("I", 0) + 1
-                    distinct.add(("I", tuple(boards), way, repr(led)))
+                    # the FORM of the iterable rotates: as written (list / tuple), a one-shot iterator, a generator
+                    iform += 1
+                    boards = list(boards_)
+                    given = boards_ if iform % 3 == 0 else iter(list(boards_)) if iform % 3 == 1 else (b for b in list(boards_))
+                    distinct.add(("I", tuple(boards), way, repr(led), iform % 3))
                     ctl = new_controller(BMPController)
                     del trace[:]
                     try:
                         if way == "kw":
-                            ctl.set_led(led, True, board=boards)
+                            ctl.set_led(led, True, board=given)
                         elif way == "pos":
-                            ctl.set_led(led, True, 0, 0, boards)
+                            ctl.set_led(led, True, 0, 0, given)
                         else:
-                            with ctl(board=boards):
+                            with ctl(board=given):
                                 ctl.set_led(led, True)
                         out = "ok"
                     except Exception as e:      # noqa
                         out = "%s: %s" % (type(e).__name__, e)
-                    inputs = {"method": "BMPController.set_led", "led": led, "board": list(boards), "way": way}
+                    inputs = {"method": "BMPController.set_led", "led": led, "board": list(boards), "way": way, "iterable_form": ("as written", "iterator", "generator")[iform % 3]}
                     first = list(boards)[0]
                     good = (out == "ok" and len(trace) == 1 and trace[0][4] == first and (trace[0][2], trace[0][3]) == (0, 0)
                             and trace[0][7] == sum(1 << b for b in boards) and trace[0][1] == bmp_host(0, 0, first))
